@@ -3,12 +3,13 @@ import TsVerif.GenRaw.Basic
 import TsVerif.GenRaw.Edit
 import TsVerif.GenRaw.Consts
 import TsVerif.GenRaw.Query
+import TsVerif.GenRaw.Parser
 /-!
 `tsv-gen`: evaluates the *regenerated raw* definitions (TsGenRaw) on the same argument lines as `tsv-cunit`
 evaluates the C functions (translator validation).
 -/
 open TsGenRaw TsVerif
-open TsGen (TSPoint TSRange TSInputEdit Length TSQuantifier)
+open TsGen (TSPoint TSRange TSInputEdit Length TSQuantifier ErrorStatus ErrorComparison)
 
 def P (a : Array Nat) (i : Nat) : TSPoint := { row := a[i]!, column := a[i+1]! }
 def L (a : Array Nat) (i : Nat) : Length := { bytes := a[i]!, extent := P a (i+1) }
@@ -24,6 +25,12 @@ def qOf : Nat → TSQuantifier
 def qTo : TSQuantifier → Nat
   | .TSQuantifierZero => 0 | .TSQuantifierZeroOrOne => 1 | .TSQuantifierZeroOrMore => 2
   | .TSQuantifierOne => 3 | .TSQuantifierOneOrMore => 4
+
+def ES (a : Array Nat) (i : Nat) : ErrorStatus :=
+  { cost := a[i]!, node_count := a[i+1]!, dynamic_precedence := (a[i+2]! : Int) - 1000000, is_in_error := a[i+3]! != 0 }
+def cTo : ErrorComparison → Nat
+  | .ErrorComparisonTakeLeft => 0 | .ErrorComparisonPreferLeft => 1 | .ErrorComparisonNone => 2
+  | .ErrorComparisonPreferRight => 3 | .ErrorComparisonTakeRight => 4
 
 def eval (fn : String) (a : Array Nat) : String :=
   match fn with
@@ -51,6 +58,8 @@ def eval (fn : String) (a : Array Nat) : String :=
   | "quantifier_mul" => toString (qTo (quantifier_mul (qOf a[0]!) (qOf a[1]!)))
   | "quantifier_join" => toString (qTo (quantifier_join (qOf a[0]!) (qOf a[1]!)))
   | "quantifier_add" => toString (qTo (quantifier_add (qOf a[0]!) (qOf a[1]!)))
+  | "compare_versions" => toString (cTo (ts_parser__compare_versions (ES a 0) (ES a 4)))
+  | "const2" => toString MAX_COST_DIFFERENCE
   | "const" => s!"{TS_MAX_INLINE_TREE_LENGTH} {TS_MAX_TREE_POOL_SIZE} {ERROR_COST_PER_RECOVERY} {ERROR_COST_PER_MISSING_TREE} {ERROR_COST_PER_SKIPPED_TREE} {ERROR_COST_PER_SKIPPED_LINE} {ERROR_COST_PER_SKIPPED_CHAR} {MAX_LINK_COUNT} {MAX_NODE_POOL_SIZE} {MAX_ITERATOR_COUNT}"
   | _ => "unknown"
 
